@@ -283,6 +283,16 @@ def setup():
             else:
                 mapping = None
                 idxes = all_idxes(st)
+            if len(idxes) > 4000:
+                # oversized stores: the rows at both ends of every VarData plus a random sample, at fewer locations
+                byvd = {}
+                for i in idxes:
+                    byvd.setdefault(i >> 16, []).append(i)
+                pick = set(rr.sample(idxes, 2500))
+                for v in byvd.values():
+                    v.sort()
+                    pick.update(v[:40] + v[-40:])
+                idxes, locs = sorted(pick), locs[:6]
             for i in idxes:
                 j = i if mapping is None else mapping.get(i)
                 if j is None:
@@ -436,6 +446,12 @@ def cases(tier, seed):
         add("solver", part=part, parts=nsp, fine=T)
     for part in range(8 if T else 3):
         add("stores", part=part, n=80 if T else 30)
+    add("stores_big", wide="word", novi=True)
+    if T:
+        add("stores_big", wide="long", novi=False)
+        add("stores_big", wide="word", novi=False)
+    for part in range(6 if T else 2):
+        add("multistore", part=part, n=120 if T else 40)
     for part in range(8 if T else 3):
         add("iup", part=part, n=500 if T else 160)
     from vmon import corpus
@@ -695,8 +711,38 @@ def _drv_stores(case, rnd, ctx):
             mv = [rnd.randrange(-500, 500) for _ in locs]
             base, vidx = b.storeMasters(mv)
             rows.append((mv, base, vidx))
+        # the same regions handed over again in other orders (as hvar/vvar do per glyph), and sub-lists of them
+        direct = []
+        sup_nz = [s_ for s_ in model.supports if s_]
+        for _b in range(rnd.randrange(1, 4)):
+            sl = list(sup_nz)
+            rnd.shuffle(sl)
+            if rnd.random() < 0.3 and len(sl) > 1:
+                sl = sl[:rnd.randrange(1, len(sl))]
+            b.setSupports(sl)
+            for _r in range(rnd.randrange(1, 5)):
+                dl = [rnd.randrange(-400, 400) for _ in sl]
+                if rnd.random() < 0.3 and rows:
+                    # the multiset of an earlier row of the model batch, to collide in any shared cache
+                    prev = model.getDeltas(rnd.choice(rows)[0], round=round)[1:]
+                    if len(prev) == len(sl):
+                        dl = list(prev)
+                        rnd.shuffle(dl)
+                direct.append((sl, dl, b.storeDeltas(dl)))
         st = b.finish(optimize=False)
         parsed = _compile_store(st)
+        for sl, dl, vidx in direct:
+            ctx.judged()
+            for l in locs + [{a: 0.25 for a in ax2}, {a: -0.75 for a in ax2}]:
+                locv = [F(l.get(a, 0)) for a in ax2]
+                got = R.eval_varstore(parsed, vidx, locv)
+                want = sum(F(d) * R.region_scalar({k: F(v) for k, v in l.items()}, {ax: tuple(t) for ax, t in s_.items()})
+                           for d, s_ in zip(dl, sl))
+                if got != want:
+                    ctx.violation({"kind": "variation", "func": "OnlineVarStoreBuilder", "what": "deltas stored after setSupports evaluate differently from deltas x supports"},
+                                  "OnlineVarStoreBuilder.setSupports/storeDeltas round trip differs",
+                                  {"supports": repr(sl), "deltas": dl, "at": repr(l), "got": float(got), "want": float(want)})
+                    return
         from fontTools.misc.roundTools import otRound
         for mv, base, vidx in rows:
             deltas = model.getDeltas(mv, round=round)
@@ -711,6 +757,167 @@ def _drv_stores(case, rnd, ctx):
                                   "OnlineVarStoreBuilder round trip differs", {"locations": repr(locs), "masters": mv, "at": repr(l), "got": float(got), "want": float(want)})
                     return
         ctx.nontrivial("online_builder/a%d/m%d" % (na, len(locs)))
+
+
+def _mv_eval(store, axes, varidx, loc):
+    """Exact evaluation of one MultiVarStore item from the object's fields (spec: the item's tuple is
+    VarRegionCount blocks of equal length; block k is scaled by the tent product of sparse region k)."""
+    if varidx == 0xFFFFFFFF:
+        return []
+    vd = store.MultiVarData[varidx >> 16]
+    item = list(vd.Item[varidx & 0xFFFF])
+    nreg = len(vd.VarRegionIndex)
+    if not item:
+        return []
+    m = len(item) // nreg
+    out = [F(0)] * m
+    for k, ri in enumerate(vd.VarRegionIndex):
+        reg = store.SparseVarRegionList.Region[ri]
+        sup = {axes[a.AxisIndex]: (F(a.StartCoord), F(a.PeakCoord), F(a.EndCoord)) for a in reg.SparseVarRegionAxis}
+        sc = R.region_scalar(loc, sup)
+        for j in range(m):
+            out[j] += F(item[k * m + j]) * sc
+    return out
+
+
+def _drv_multistore(case, rnd, ctx):
+    """MultiVarStore (VARC): masters -> OnlineMultiVarStoreBuilder -> one MultiVarStoreInstancer driven through a
+    history of setLocation calls; every lookup is compared with the exact evaluation of the stored tuples and
+    with the model's deltas; then subset_varidxes/prune_regions must keep every surviving item's value."""
+    from fontTools.varLib.multiVarStore import OnlineMultiVarStoreBuilder, MultiVarStoreInstancer
+    from fontTools.varLib.models import VariationModel
+    from fontTools.misc.vector import Vector
+
+    class Ax:
+        def __init__(self, t):
+            self.axisTag = t
+
+    for i in range(case["n"]):
+        na = rnd.randrange(1, 4)
+        axes = ["A", "B", "C"][:na]
+        b = OnlineMultiVarStoreBuilder(axes)
+        rows = []   # (model, master vectors, base, varidx)
+        for _mod in range(rnd.randrange(1, 4)):
+            locs, seen = [{}], set()
+            for _m in range(rnd.randrange(1, 5)):
+                pl = {a: float(rnd.choice(LAT)) for a in rnd.sample(axes, rnd.randrange(1, na + 1))}
+                k = tuple(sorted(pl.items()))
+                if k not in seen:
+                    seen.add(k)
+                    locs.append(pl)
+            rnd.shuffle(locs)
+            model = VariationModel(locs, axisOrder=axes)
+            b.setModel(model)
+            for _r in range(rnd.randrange(1, 7)):
+                m = rnd.randrange(1, 5)
+                if rnd.random() < 0.15:
+                    one = [rnd.randrange(-300, 300) for _ in range(m)]
+                    mv = [Vector(one) for _ in locs]          # no variation -> NO_VARIATION_INDEX
+                else:
+                    mv = [Vector([rnd.randrange(-300, 300) for _ in range(m)]) for _ in locs]
+                base, vidx = b.storeMasters(mv)
+                rows.append((model, locs, mv, list(base), vidx))
+        store = b.finish()
+        inst = MultiVarStoreInstancer(store, [Ax(t) for t in axes], {})
+        fine = [F(-1), F(-3, 4), F(-1, 2), F(-1, 4), F(0), F(1, 4), F(1, 2), F(3, 4), F(1)]
+        history = []
+        for _l in range(rnd.randrange(3, 8)):
+            loc = {t: rnd.choice(fine) for t in axes if rnd.random() < 0.85}
+            inst.setLocation({k: float(v) for k, v in loc.items()})
+            history.append({k: float(v) for k, v in loc.items()})
+            for model, locs, mv, base, vidx in (rows if len(rows) <= 6 else rnd.sample(rows, 6)):
+                got = list(inst[vidx])
+                ctx.judged()
+                want = _mv_eval(store, axes, vidx, loc)
+                if len(got) != len(want) or any(not _close(g, w, 300.0) for g, w in zip(got, want)):
+                    ctx.violation({"kind": "variation", "func": "MultiVarStoreInstancer", "what": "lookup differs from the exact evaluation of the stored tuples"},
+                                  "MultiVarStoreInstancer[%#x] after %d setLocation calls differs" % (vidx, len(history)),
+                                  {"history": history, "varidx": vidx, "got": [float(x) for x in got], "want": [float(x) for x in want]})
+                    return
+                if vidx != 0xFFFFFFFF:
+                    vd = store.MultiVarData[vidx >> 16]
+                    got2 = list(inst.interpolateFromDeltas(vidx >> 16, vd.Item[vidx & 0xFFFF]))
+                    if any(not _close(g, w, 300.0) for g, w in zip(got2, want)) or len(got2) != len(want):
+                        ctx.violation({"kind": "variation", "func": "MultiVarStoreInstancer", "what": "interpolateFromDeltas differs from the exact evaluation of the stored tuples"},
+                                      "MultiVarStoreInstancer.interpolateFromDeltas differs", {"history": history, "varidx": vidx})
+                        return
+        # stored tuples against the masters: at a master's own location base+variation is within rounding of the master
+        for model, locs, mv, base, vidx in rows:
+            for li, l in enumerate(locs):
+                lf = {k: F(v) for k, v in l.items()}
+                var = _mv_eval(store, axes, vidx, lf) or [F(0)] * len(base)
+                ctx.judged()
+                # each of the <=len(locs) deltas is rounded once: error at a master is at most 0.5 per contributing delta
+                bound = F(len(locs), 2)
+                if any(abs(F(bv) + v - F(m_)) > bound for bv, v, m_ in zip(base, var, mv[li])):
+                    ctx.violation({"kind": "variation", "func": "OnlineMultiVarStoreBuilder", "what": "stored tuples do not reproduce a master at its own location"},
+                                  "OnlineMultiVarStoreBuilder round trip differs at master %d" % li,
+                                  {"locations": repr(locs), "master": list(mv[li]), "got": [float(F(bv) + v) for bv, v in zip(base, var)]})
+                    return
+            # exact: stored tuples == the model's rounded deltas under the model's supports
+            deltas = model.getDeltas(mv, round=round)
+            probe = {a: rnd.choice(fine) for a in axes}
+            want = [F(0)] * len(base)
+            for d, sup in zip(deltas[1:], model.supports[1:]):
+                sc = R.region_scalar(probe, {ax: tuple(F(x) for x in t) for ax, t in sup.items()})
+                for j in range(len(want)):
+                    want[j] += F(d[j]) * sc
+            got = _mv_eval(store, axes, vidx, probe) or [F(0)] * len(base)
+            if got != want:
+                ctx.violation({"kind": "variation", "func": "OnlineMultiVarStoreBuilder", "what": "stored deltas evaluate differently from the model's rounded deltas"},
+                              "OnlineMultiVarStoreBuilder stores other deltas than the model computed",
+                              {"locations": repr(locs), "at": {k: float(v) for k, v in probe.items()}, "got": [float(x) for x in got], "want": [float(x) for x in want]})
+                return
+        # subsetting / pruning keeps the value of every kept item
+        real = sorted({r[4] for r in rows if r[4] != 0xFFFFFFFF})
+        if real:
+            keep = set(rnd.sample(real, rnd.randrange(1, len(real) + 1)))
+            s2 = copy.deepcopy(store)
+            mapping = s2.subset_varidxes(keep)
+            s2.prune_regions()
+            for old in keep:
+                probe = {a: rnd.choice(fine) for a in axes}
+                ctx.judged()
+                if _mv_eval(store, axes, old, probe) != _mv_eval(s2, axes, mapping[old], probe):
+                    ctx.violation({"kind": "variation", "func": "MultiVarStore.subset_varidxes", "what": "a kept item evaluates differently after subsetting/pruning"},
+                                  "MultiVarStore subset changes item %#x" % old, {"old": old, "new": mapping[old]})
+                    return
+        if i == 0:
+            ctx.sample = {"axes": axes, "multivardata": [len(vd.Item) for vd in store.MultiVarData], "history": history}
+        ctx.nontrivial("multistore/a%d/vd%d/h%d" % (na, len(store.MultiVarData), len(history)))
+
+
+def _drv_stores_big(case, rnd, ctx):
+    """A store in which one row encoding holds more than 0xFFFF distinct rows (optimize must split it over several
+    VarData and the returned map must follow), next to ordinary small VarData sorted before and after it."""
+    from fontTools.varLib import builder
+    from fontTools.ttLib.tables import otTables as ot
+    axes = ["wght", "wdth"]
+    sups = [{"wght": (0, 1, 1)}, {"wdth": (0, 1, 1)}, {"wght": (0, 1, 1), "wdth": (0, 1, 1)}, {"wght": (-1, -1, 0)}]
+    rl = builder.buildVarRegionList(sups, axes)
+    vds = []
+    # small VarData: byte columns
+    vds.append(builder.buildVarData([0, 1], [[rnd.randrange(-100, 100), rnd.randrange(-100, 100)] for _ in range(rnd.randrange(50, 200))], optimize=False))
+    # oversized: word (or long) columns, all rows distinct
+    wide = case["wide"]
+    lo = 1 << (20 if wide == "long" else 10)
+    n = 0xFFFF + rnd.randrange(1, 6000)
+    seen = set()
+    rows = []
+    while len(rows) < n:
+        r = (rnd.randrange(lo, lo * 16) * rnd.choice([-1, 1]), rnd.randrange(lo, lo * 16) * rnd.choice([-1, 1]))
+        if r not in seen:
+            seen.add(r)
+            rows.append(list(r))
+    half = len(rows) // 2
+    vds.append(builder.buildVarData([0, 2], rows[:half], optimize=False))
+    vds.append(builder.buildVarData([0, 2], rows[half:], optimize=False))
+    # another small one whose encoding sorts elsewhere
+    vds.append(builder.buildVarData([1, 2, 3], [[rnd.randrange(-100, 100), rnd.randrange(-30000, 30000), 0] for _ in range(rnd.randrange(50, 200))], optimize=False))
+    store = builder.buildVarStore(rl, vds)
+    mapping = store.optimize(use_NO_VARIATION_INDEX=case["novi"])
+    ctx.sample = {"rows_in": [len(vd.Item) for vd in vds], "rows_out": [len(vd.Item) for vd in store.VarData], "mapped": len(mapping)}
+    ctx.nontrivial("stores_big/%s/vd%d" % (wide, len(store.VarData)))
 
 
 def _drv_stores_corpus(case, rnd, ctx):
@@ -856,7 +1063,7 @@ def _wrap(name):
     return drv
 
 
-for _n in ["models1", "models2", "modelsN", "stores", "iup", "iup_corpus", "stores_corpus", "norm"]:
+for _n in ["models1", "models2", "modelsN", "stores", "stores_big", "multistore", "iup", "iup_corpus", "stores_corpus", "norm"]:
     globals()["drv_" + _n] = _wrap(_n)
 
 
